@@ -467,14 +467,15 @@ def run_tapes(acc, case, bits):
 # ---- driver ---------------------------------------------------------------------------
 def plan(tier, seed_value):
     specs = []
-    static = 160000 if tier == 'thorough' else 6400
-    tapes = 6400 if tier == 'thorough' else 160
-    for k in range(16):
+    static = 64000 if tier == 'thorough' else 6400
+    tapes = 3200 if tier == 'thorough' else 160
+    shards = 64 if tier == 'thorough' else 16    # many short Hypothesis runs
+    for k in range(shards):
         specs.append({'kind': 'static', 'seed': seed_value * 1000 + k,
-                      'examples': static // 16})
-        specs.append({'kind': 'tapes', 'seed': seed_value * 1000 + 50 + k,
-                      'examples': tapes // 16,
-                      'bits': 10 if tier == 'thorough' else 6})
+                      'examples': static // shards})
+        specs.append({'kind': 'tapes', 'seed': seed_value * 1000 + 500 + k,
+                      'examples': tapes // shards,
+                      'bits': 8 if tier == 'thorough' else 6})
     return specs
 
 
